@@ -252,6 +252,22 @@ func check(c Case) vk.Verdict {
 			}
 		}
 	}
+	// 5. an excepted cookie passes through unchanged whatever it holds - also a ciphertext this server issued for
+	// another cookie (it must not be decrypted for the application to echo)
+	for _, ex := range c.Cookies {
+		if !excepted(ex.Name, c.Except) || strings.ContainsAny(ex.Name, "=; ") {
+			continue
+		}
+		for _, pr := range c.Cookies {
+			if excepted(pr.Name, c.Except) || len(pr.Value) == 0 {
+				continue
+			}
+			vk.Do(app, "GET", "/get", "Cookie", ex.Name+"="+wire[pr.Name])
+			if seen[ex.Name] != wire[pr.Name] {
+				return vk.Failf("excepted cookie %q sent with the ciphertext issued for %q reaches the handler as %q, want it unchanged (%q)", ex.Name, pr.Name, seen[ex.Name], wire[pr.Name])
+			}
+		}
+	}
 	// 4. a name sent twice: the issued ciphertext next to text the server never issued, in both orders
 	for _, ck := range c.Cookies {
 		if excepted(ck.Name, c.Except) || len(ck.Value) == 0 || strings.ContainsAny(ck.Name, "=; ") {
